@@ -1412,6 +1412,66 @@ impl<'a, C: CellType> OptDseState<'a, C> {
     }
 }
 
+#[cfg(feature = "verif")]
+impl<C: CellType> OptAnalysis<C> {
+    fn verif_export(&self) -> crate::verif::DseAnal {
+        let mut reads = self.reads.iter().copied().collect::<Vec<_>>();
+        reads.sort();
+        crate::verif::DseAnal {
+            at_most_once: self.loop_anal.at_most_once,
+            at_least_once: self.loop_anal.at_least_once,
+            has_shift: self.has_shift,
+            reads,
+            subs: self.sub_blocks.iter().map(|x| x.verif_export()).collect(),
+        }
+    }
+
+    fn verif_import(anal: &crate::verif::DseAnal) -> Self {
+        let mut loop_anal = OptLoop::unknown(anal.at_least_once);
+        loop_anal.at_most_once = anal.at_most_once;
+        OptAnalysis {
+            loop_anal,
+            has_shift: anal.has_shift,
+            reads: anal.reads.iter().copied().collect(),
+            clobbered: HashSet::new(),
+            sub_blocks: anal.subs.iter().map(Self::verif_import).collect(),
+        }
+    }
+}
+
+#[cfg(feature = "verif")]
+impl<C: CellType> Program<C> {
+    /// Every (program, analysis) pair handed to dead store elimination while optimizing
+    /// at `level`, together with the program it produced.
+    pub fn verif_dse_steps(&self, level: u32) -> Vec<(Self, crate::verif::DseAnal, Self)> {
+        let mut steps = Vec::new();
+        if level != 0 {
+            let mut anal = OptAnalysis {
+                loop_anal: OptLoop::at_most_once(true),
+                has_shift: false,
+                reads: HashSet::new(),
+                clobbered: HashSet::new(),
+                sub_blocks: Vec::new(),
+            };
+            let mut prog;
+            (prog, anal) = self.optimize_once(anal);
+            for _ in 1..(level.min(3)) {
+                let before = prog.clone();
+                prog.dead_store_elimination(&anal);
+                steps.push((before, anal.verif_export(), prog.clone()));
+                (prog, anal) = prog.optimize_once(anal);
+            }
+        }
+        steps
+    }
+
+    /// Dead store elimination under an analysis supplied by the caller (one node per block).
+    pub fn verif_dse_with(&mut self, anal: &crate::verif::DseAnal) {
+        let anal = OptAnalysis::verif_import(anal);
+        self.dead_store_elimination(&anal);
+    }
+}
+
 impl<C: CellType> Program<C> {
     /// Perform one iteration of optimization and return the new program.
     fn optimize_once(&self, prev_anal: OptAnalysis<C>) -> (Self, OptAnalysis<C>) {
